@@ -313,6 +313,10 @@ def find_blocked_reactions(
         reaction_list = solution.fluxes[
             solution.fluxes.abs() < zero_cutoff
         ].index.tolist()
+        # Whether a reaction is blocked does not depend on the objective: with
+        # it in place, FVA at fraction 0 would still only look at flux
+        # distributions on the optimum's side of an objective value of zero.
+        model.objective = Zero
         # Run FVA to find reactions where both the minimal and maximal flux
         # are zero (below the cut off).
         flux_span = flux_variability_analysis(
